@@ -81,11 +81,37 @@ def _same_matrix(A, B):
     return v == 'unsat'
 
 
+def _scaled(fac, kind, lam):
+    """Factors of lam * B from the factors of B (lam > 0 decided by the caller)."""
+    if kind == 'qr':
+        return (fac[0], fac[1] * lam)
+    if kind == 'rq':
+        return (fac[0] * lam, fac[1])
+    if kind == 'svd':
+        return (fac[0], fac[1] * lam, fac[2])
+    if kind == 'eigh':
+        return (fac[0] * lam, fac[1])
+    return None
+
+
 def _lookup(kind, A):
     ctx = _ctx()
-    for k, B, fac in ctx.__dict__.get('lapack_registry', []):
+    reg = ctx.__dict__.get('lapack_registry', [])
+    for k, B, fac in reg:
         if k == kind and _same_matrix(A, B):
             return fac
+    # positive multiples of a registered matrix: stabilised code paths divide
+    # a core by a power-of-two scale E between two factorisations; candidates
+    # are 1/E for the scale variables created so far (latest first)
+    scales = list(ctx.__dict__.get('exp_scales', {}).values())[::-1]
+    for E in scales:
+        lam = Sym.const(1) / E
+        for k, B, fac in reg:
+            if k != kind or A.shape != B.shape or kind not in ('qr', 'rq', 'svd', 'eigh'):
+                continue
+            lam_k = lam * lam if kind == 'eigh' else lam
+            if _same_matrix(A, B * lam_k):
+                return _scaled(fac, kind, lam_k)
     return None
 
 
@@ -100,6 +126,7 @@ def _sign(name='sg'):
     ctx.defs[v] = [Or.make([Cmp.make(s.n - Poly.const(1), '=='),
                             Cmp.make(s.n + Poly.const(1), '==')])]
     ctx.rewrites[v] = (2, Sym.const(1))
+    ctx.var_sign[v] = 'pm1'
     return s
 
 
